@@ -109,7 +109,9 @@ Req == /\ Rec[l].e = "req" /\ mode = "ok"
              /\ maxgap' = gap
        /\ k' = k + 1 /\ l' = l + 1 /\ UNCHANGED beh
 
-TraceNext == l <= Len(Rec) /\ (Reset \/ Skip \/ Req)
+\* a remark of the harness (e.g. whether the node re-keyed before the history): no step of the model
+Note == /\ Rec[l].e = "note" /\ l' = l + 1 /\ UNCHANGED <<s, k, iss, mode, lastReq, maxgap, beh>>
+TraceNext == l <= Len(Rec) /\ (Reset \/ Skip \/ Req \/ Note)
 TraceSpec == TraceInit /\ [][TraceNext]_vars
 
 \* the whole trace has been consumed (one state per line plus the initial state)
